@@ -459,7 +459,7 @@ class FlowMixin:
             self.set_coro_state(st, r.t, 0)
         return co.ref
 
-    CORO_STATE_KEY = "coroutine.$state"    # 0 created, 1 suspended, 2 running, 3 closed
+    CORO_STATE_KEY = "coroutine.state"    # ghost field of model "coroutine": 0 created, 1 suspended, 2 running, 3 closed
 
     def set_coro_state(self, st, ref, code):
         arr = st.harr(self.CORO_STATE_KEY, z3.ArraySort(RefS, z3.IntSort()))
